@@ -1,12 +1,12 @@
 #!/bin/sh
 # usage: confirm_seed.sh <seed dir with patch.diff, demo.rs, meta.json>
 # Confirms in the scratch worktree /tmp/wt/main (HEAD of /repo): suite passes with the change, demo fails with it, demo passes without.
-D="$1"; WT=/tmp/wt/main
+D="$1"; shift; EXTRA="$@"; WT=/tmp/wt/main
 cd $WT || exit 2
 git checkout -q -- . ; git clean -qfd tests/ ; git checkout -q --detach $(git -C /repo rev-parse HEAD) 2>/dev/null
 export CARGO_TARGET_DIR=$WT/target
 cp "$D/demo.rs" tests/demo.rs
-cargo test --offline --test demo >/tmp/cs_clean.$$ 2>&1; CLEAN=$?
+cargo test --offline $EXTRA --test demo >/tmp/cs_clean.$$ 2>&1; CLEAN=$?
 if ! git apply "$D/patch.diff" 2>/dev/null; then
   git apply --3way "$D/patch.diff" >/dev/null 2>&1
   for f in $(git diff --name-only --diff-filter=U); do
@@ -20,7 +20,7 @@ PY
   git reset -q
 fi
 git diff -- src > /tmp/cs_patch.$$
-cargo test --offline --test demo >/tmp/cs_mut.$$ 2>&1; MUT=$?
+cargo test --offline $EXTRA --test demo >/tmp/cs_mut.$$ 2>&1; MUT=$?
 rm tests/demo.rs
 cargo test --offline 2>&1 | grep -E "^test result" | awk '{p+=$4; f+=$6} END {print p, f}' > /tmp/cs_suite.$$
 read P F < /tmp/cs_suite.$$
